@@ -173,7 +173,15 @@ class BaseTcpServerHandler(Work[T]):
             logger.debug(
                 'Flushing buffer to client {0}'.format(self.work.address),
             )
-            self.work.flush(self.flags.max_sendbuf_size)
+            try:
+                self.work.flush(self.flags.max_sendbuf_size)
+            except (BrokenPipeError, ConnectionResetError):
+                logger.debug(
+                    'Client {0} went away with buffer pending'.format(
+                        self.work.address,
+                    ),
+                )
+                return True
             if self.must_flush_before_shutdown is True and \
                     not self.work.has_buffer():
                 teardown = True
@@ -205,7 +213,12 @@ class BaseTcpServerHandler(Work[T]):
                         self.work.address,
                     ),
                 )
-                teardown = True
+                if self.work.has_buffer():
+                    # Client may only have closed its sending side,
+                    # flush what is pending for it before shutting down
+                    self.must_flush_before_shutdown = True
+                else:
+                    teardown = True
             else:
                 r = self.handle_data(data)
                 if isinstance(r, bool) and r is True:
